@@ -378,6 +378,10 @@ def ite(c, a, b):
         return tuple(ite(c, x, y) for x, y in zip(a, b))
     if a is None and b is None:
         return None
+    if isinstance(a, dict) and isinstance(b, dict) and set(a.keys()) == set(b.keys()):
+        return {k: ite(c, a[k], b[k]) for k in a}
+    if isinstance(a, Opaque) and isinstance(b, Opaque):
+        return a
     ka, kb = kind_of(a), kind_of(b)
     if ka == 'bool' and kb == 'bool':
         return mk_bool(z3.If(c, z3bool(a), z3bool(b)))
